@@ -31,6 +31,9 @@ Definition request_head_has_no_body : bool := false.
 (* payload parser exceptions re-raised by feed_data: isinstance(underlying_exc, BadHttpMessage) and (not isinstance(underlying_exc, ContentEncodingError)) *)
 Definition payload_framing_errors_all_fatal : bool := true.
 
+(* if enc.isascii() and enc.lower() in {'gzip', 'deflate', 'br', 'zstd'}: encoding = enc.lower() *)
+Definition content_encoding_lowered : bool := true.
+
 Definition default_max_line : N := 8190.
 Definition default_max_headers : N := 128.
 Definition default_max_field : N := 8190.
